@@ -101,7 +101,8 @@ def rand_expr(rng, vars_, nterms, allow_quad=True):
                 a, b = rng.choice(qv), rng.choice(qv)
                 if a[0] == b[0] and a[1] != 'INTEGER':
                     continue
-                if any({a[0], b[0]} == {x[0], x[1]} for x in quad):
+                # labels may be JSON-encoded tuples (dicts) in the refusal stream: compare by repr
+                if any({repr(a[0]), repr(b[0])} == {repr(x[0]), repr(x[1])} for x in quad):
                     continue
                 quad.append([a[0], b[0], str(rand_coef(rng))])
     off = rand_coef(rng) if rng.random() < 0.6 else Fraction(0)
